@@ -579,7 +579,8 @@ class Run:
             r = {"obligation": o.name, "kind": o.kind, "what": "no-UB" if o.ub else "value",
                  "units": sorted({c.unit.name for c in o.calls}), "verdict": o.verdict,
                  "solver": o.outcome.solver if o.outcome else None,
-                 "time_s": round(o.outcome.t, 3) if o.outcome else None, "note": o.note}
+                 "time_s": round(o.outcome.t, 3) if o.outcome else None, "note": o.note,
+                 "cap_s": o.query.timeout if o.query is not None else None}
             if o.detail:
                 r["detail"] = o.detail
             if o.outcome is not None and o.outcome.status == "sat":
@@ -611,7 +612,7 @@ class Run:
             "encoder_selfcheck": self.selfcheck,
             "samples": recs[:40],
             "all_obligations": [{"o": r["obligation"], "k": r["kind"], "v": r["verdict"], "s": r["solver"],
-                                 "t": r["time_s"]} for r in recs],
+                                 "t": r["time_s"], "cap": r.get("cap_s")} for r in recs],
             "checker_cmd": "./check %s --tier %s" % (self.pid, self.tier),
             "trusted_base": ["clang-14 front end (C++ -> LLVM IR)", "vf/llparse.py + vf/encode.py (validated each run "
                              "by differential execution against g++/clang++ builds)", "z3 / cvc5"],
